@@ -833,8 +833,9 @@ def _join_ty(a, b):
         return TRef(b.cls, True)
     if b is NONE and isinstance(a, TRef):
         return TRef(a.cls, True)
-    if isinstance(a, TRef) and isinstance(b, TRef) and a.cls == b.cls:
-        return TRef(a.cls, a.nullable or b.nullable)
+    if isinstance(a, TRef) and isinstance(b, TRef):
+        # all references share one sort; the static class of a join is only used for field/method lookup
+        return TRef(a.cls if a.cls == b.cls else 'Documentable', a.nullable or b.nullable)
     if a is NONE and not isinstance(b, TPy):
         return TOpt(b)
     if b is NONE and not isinstance(a, TPy):
